@@ -21,11 +21,18 @@ Definition answered (SRC : node) (q : request) : bool := match answer H SRC q wi
 
 Lemma structure_dir : forall m es, structure (Dir m es) = MDir m (names es) :: structure_entries es.
 Proof.
-  intros m es. cbn [structure]. f_equal.
-  induction es as [|e r IH]; [reflexivity|]. cbn [structure_entries]. rewrite <- IH. reflexivity.
+  intros m es. cbn [structure].
+  match goal with |- MDir m (names es) :: ?F es = _ => assert (E : forall l, F l = structure_entries l) end.
+  { induction l as [|e r IH]; [reflexivity|]. cbn [structure_entries]. rewrite <- IH. reflexivity. }
+  rewrite E. reflexivity.
 Qed.
 Lemma links_dir : forall m es rp, links_of (Dir m es) rp = links_entries es rp.
-Proof. intros m es rp. cbn [RSyncProto.links_of]. induction es as [|e r IH]; [reflexivity|]. cbn [RSyncProto.links_entries]. rewrite <- IH. reflexivity. Qed.
+Proof.
+  intros m es rp. cbn [RSyncProto.links_of].
+  match goal with |- ?F es = _ => assert (E : forall l, F l = links_entries l rp) end.
+  { induction l as [|e r IH]; [reflexivity|]. cbn [RSyncProto.links_entries]. rewrite <- IH. reflexivity. }
+  apply E.
+Qed.
 
 Lemma recv_dir : forall f m nms r tgt rp,
   recv (S f) (MDir m nms :: r) tgt rp =
@@ -122,12 +129,72 @@ Proof.
           destruct I as [->|I]; [left; exact Hp|right; apply IHe; exact I]. }
         destruct (IHs (rest0) more0) as [ps [qs [R1 [R2 R3]]]]; [intros; apply Sub; right; auto|lia|].
         destruct (IH (n, s) I (WS n s I) f (structure_entries r ++ rest0) (lookup n (tes_of tgt)) (n :: rp) (map (answer H SRC) qs ++ more0)) as [p [q [P1 [P2 P3]]]]; [cbn [snd]; lia|exact Gs|exact LKs|].
-        cbn [snd] in P1, P2, P3. rewrite P1, R1. exists ((n, p) :: ps), (q ++ qs). split; [reflexivity|].
+        cbn [snd] in P1, P2, P3. change (map fst r) with (names r). rewrite P1, R1. exists ((n, p) :: ps), (q ++ qs). split; [reflexivity|].
         cbn [RSyncProto.finish_entries fst snd RSync.sync_entries]. rewrite map_app, <- app_assoc, P2, R2.
         destruct (sync (n :: rp) s (lookup n (tes_of tgt))) as [x t1]. destruct (sync_entries rp (tes_of tgt) r) as [xs t2]. cbn [fst snd] in *.
         split; [reflexivity|]. rewrite filter_app_map, P3, R3. reflexivity. }
     destruct (E es rest more) as [ps [qs [R1 [R2 R3]]]]; [auto|lia|]. rewrite R1.
     eexists. eexists. split; [reflexivity|]. rewrite finish_dir, R2.
     destruct (sync_entries rp (tes_of tgt) es) as [synced trs]. cbn [fst snd] in *. split; [reflexivity|exact R3].
+Qed.
+
+(* every link path of a subtree at rp extends rev rp *)
+Lemma links_prefix : forall x rp p t, In (p, t) (links_of x rp) -> exists suf, p = rev rp ++ suf.
+Proof.
+  intros x. induction x as [c m t0|t0|m es IH] using node_ind2; intros rp p t I.
+  - destruct I.
+  - destruct t0 as [t1|q]; cbn in I; destruct I as [I|[]]; inversion I; subst; exists []; rewrite app_nil_r; reflexivity.
+  - rewrite links_dir in I. induction es as [|[n s] r IHe]; [destruct I|]. cbn [RSyncProto.links_entries fst snd] in I. apply in_app_or in I.
+    inversion IH as [|? ? Hs Hr]; subst. destruct I as [I|I].
+    + destruct (Hs (n :: rp) p t I) as [suf E]. cbn [rev] in E. rewrite <- app_assoc in E. eauto.
+    + apply IHe; auto.
+Qed.
+
+Lemma find_link_nodup : forall ls p t, NoDup (map fst ls) -> In (p, t) ls -> find_link p ls = Some t.
+Proof.
+  induction ls as [|[q u] r IH]; intros p t ND I; [destruct I|]. cbn [find_link]. inversion ND as [|? ? NI ND']; subst. destruct I as [I|I].
+  - inversion I; subst. destruct (list_eq_dec Nat.eq_dec p p); [reflexivity|congruence].
+  - destruct (list_eq_dec Nat.eq_dec q p) as [->|N]; [exfalso; apply NI; change p with (fst (p, t)); apply in_map; exact I|]. apply IH; auto.
+Qed.
+
+Lemma NoDup_app_intro : forall {A} (a b : list A), NoDup a -> NoDup b -> (forall x, In x a -> ~ In x b) -> NoDup (a ++ b).
+Proof.
+  induction a as [|x a IH]; intros b Na Nb D; [exact Nb|]. inversion Na; subst. cbn. constructor.
+  - rewrite in_app_iff. intros [X|X]; [auto|]. apply (D x); [left; reflexivity|exact X].
+  - apply IH; auto. intros y Iy. apply D. right; exact Iy.
+Qed.
+
+Lemma links_nodup : forall x rp, WF x -> NoDup (map fst (links_of x rp)).
+Proof.
+  intros x. induction x as [c m t0|t0|m es IH] using node_ind2; intros rp W.
+  - constructor.
+  - destruct t0; cbn; repeat constructor; intros [].
+  - rewrite links_dir. inversion_clear W as [| |? ? ND WS]. clear m.
+    induction es as [|[n s] r IHe]; [constructor|]. cbn [RSyncProto.links_entries fst snd]. rewrite map_app.
+    inversion IH as [|? ? Hs Hr]; subst. cbn [names map fst] in ND. inversion ND as [|? ? NI ND']; subst.
+    apply NoDup_app_intro.
+    + apply Hs. apply (WS n s). left; reflexivity.
+    + apply IHe; auto. intros n' s' I'. apply (WS n' s'). right; exact I'.
+    + intros p Ip Iq. apply in_map_iff in Ip. destruct Ip as [[p1 t1] [E1 I1]]. cbn in E1. subst p1.
+      destruct (links_prefix s (n :: rp) p t1 I1) as [suf1 E1]. cbn [rev] in E1. rewrite <- app_assoc in E1.
+      (* p also comes from a later entry n' <> n *)
+      clear - Iq E1 NI. induction r as [|[n' s'] r' IHr]; [destruct Iq|]. cbn [RSyncProto.links_entries fst snd] in Iq. rewrite map_app in Iq.
+      apply in_app_or in Iq. destruct Iq as [Iq|Iq].
+      * apply in_map_iff in Iq. destruct Iq as [[p2 t2] [E2 I2]]. cbn in E2. subst p2.
+        destruct (links_prefix s' (n' :: rp) p t2 I2) as [suf2 E2]. cbn [rev] in E2. rewrite <- app_assoc in E2.
+        rewrite E1 in E2. apply app_inv_head in E2. cbn in E2. inversion E2; subst. apply NI. cbn. left; reflexivity.
+      * apply IHr; auto. intros X. apply NI. cbn. right; exact X.
+Qed.
+
+(* the whole exchange -- structure broadcast, requests by path, answers in request order, links by path -- computes sync *)
+Theorem exchange_is_sync : forall src tgt, WF src ->
+  exchange cf H delete cwd src tgt = Some (sync [] src tgt).
+Proof.
+  intros src tgt W. unfold exchange.
+  assert (LK : links_ok (links_of src []) src []).
+  { intros p t I. apply find_link_nodup; [apply links_nodup; exact W|exact I]. }
+  destruct (recv_finish src (links_of src []) src W (S (length (structure src))) [] tgt [] [] (Nat.lt_succ_diag_r _) eq_refl LK) as [plan [reqs [R1 [R2 R3]]]].
+  rewrite app_nil_r in *. rewrite R1. rewrite R2. fold (answered src). unfold answered in R3.
+  destruct (sync [] src tgt) as [res trs]. cbn [fst snd] in *. rewrite <- R3. reflexivity.
 Qed.
 End R.
